@@ -370,7 +370,7 @@ class NetworkXPropertyGraph(ABCPropertyGraph, NetworkXMixin):
         graph_string = None
         if graph is not None:
             if format == GraphFormat.GRAPHML:
-                graph_string = '\n'.join(nx.generate_graphml(graph))
+                graph_string = GraphML.nx_generate_graphml(graph)
                 graph_string = GraphML.networkx_to_neo4j(graph_string)
             elif format == GraphFormat.JSON_NODELINK:
                 json_object = nx.readwrite.node_link_data(graph)
